@@ -186,6 +186,7 @@ long rp_explore_from (FILE *sched, const struct rp_harness *h, long runs, unsign
 	char init[4096] = "";
 	long r, viols = 0, steps_total = 0;
 	unsigned long long rng;
+	int prio[RT_MAXT], pct_depth = 0, nchg = 0; long chg[4], last_n = 0;
 	while (getline (&line, &cap, sched) > 0) {
 		if (line[0] == 'T' && !init[0]) { char *q = line + 1; while (*q == ' ') q++; strtol (q, &q, 10); while (*q == ' ') q++; q[strcspn (q, "\n")] = 0; snprintf (init, sizeof init, "%s", q); }
 		else if (line[0] == 'S') push (&pre, line);
@@ -213,6 +214,12 @@ long rp_explore_from (FILE *sched, const struct rp_harness *h, long runs, unsign
 			fprintf (of, "S %d %s *\n", actor, label);
 		}
 		rp_in_prefix = 0;
+		/* every fourth continuation is uniformly random; the others follow a priority schedule with 1-3 priority change points (a thread
+		   keeps running until it blocks or is demoted: long solo stretches, which uniform choices practically never produce); a thread
+		   about to spin-delay yields */
+		{ int q; pct_depth = (int) (r % 4); nchg = 0;
+		  for (q = 0; q < RT_MAXT; q++) { rng ^= rng << 13; rng ^= rng >> 7; rng ^= rng << 17; prio[q] = (int) ((rng >> 11) % 1000) + 10; }
+		  for (q = 0; q < pct_depth; q++) { rng ^= rng << 13; rng ^= rng >> 7; rng ^= rng << 17; chg[nchg++] = (long) ((rng >> 11) % (unsigned long) (last_n > 20 ? last_n + last_n / 4 : 300)); } }      /* change points spread over the length the previous continuation had */
 		while (!rt_first_violation () && n < max_steps && !(done ? done () : rt_all_done ())) {
 			int cand[RT_MAXT], nc = 0, t, nt = rt_nthreads ();
 			for (i = 0; i < nt; i++) if (rt_enabled (i)) cand[nc++] = i;
@@ -221,13 +228,22 @@ long rp_explore_from (FILE *sched, const struct rp_harness *h, long runs, unsign
 				if (rt_timed_waiter_pending ()) { h->env ("Tick", ""); fprintf (of, "S 0 Tick *\n"); n++; continue; }
 				if (nc == 0) break;
 			}
-			t = cand[(rng >> 17) % (unsigned) nc];
+			if (pct_depth == 0) t = cand[(rng >> 17) % (unsigned) nc];
+			else {
+				int best = -1, bp = 0, q;
+				for (i = 0; i < nc; i++) {
+					int pr = prio[cand[i]] - ((rt_pending (cand[i])->kind == OP_DELAY) ? 2000 : 0);
+					if (best < 0 || pr > bp) { best = cand[i]; bp = pr; }
+				}
+				t = best;
+				for (q = 0; q < nchg; q++) if (chg[q] == n) prio[t] = -(q + 1);
+			}
 			rt_grant (t);
 			if (h->post) h->post (t + 1, "*");
 			fprintf (of, "S %d * *\n", t + 1);
 			n++;
 		}
-		steps_total += n;
+		steps_total += n; last_n = n;
 		if (!rt_first_violation ()) h->finish (1);
 		fclose (of);
 		if (rt_first_violation ()) {
@@ -245,6 +261,102 @@ long rp_explore_from (FILE *sched, const struct rp_harness *h, long runs, unsign
 		free (out);
 	}
 	printf ("STATS tours=%ld steps=%ld matched=%ld diverged=0 mismatches=0 violations=%ld nontrivial=%ld\n", r, steps_total, r - viols, viols, r);
+	clear (&pre);
+	return viols;
+}
+
+/* Systematic exploration with a bound on preemptions (in the manner of CHESS): after the saved prefix, one thread runs until it blocks or
+   finishes, then the next runnable one; a schedule is the starting thread plus at most `bound` preemptions (step index, thread switched to).
+   All schedules with that many preemptions are enumerated (positions up to the length of the longest run seen), up to max_runs.  With
+   VERIF_PLAIN the steps include plain accesses to shared memory, so a two-instruction check-then-set window is one of the enumerated points
+   rather than a matter of luck.  Returns the number of runs in which an oracle fired. */
+long rp_explore_pb (FILE *sched, const struct rp_harness *h, int bound, long max_runs, const char *viol_dir, const char *prop, int (*done) (void), long max_steps) {
+	struct lines pre = { 0, 0, 0 };
+	char *line = NULL; size_t cap = 0;
+	char init[4096] = "";
+	long runs = 0, viols = 0, steps_total = 0, L = 1;
+	long pos[4]; int thr[4]; int k, start, nt = 0, npre;
+	while (getline (&line, &cap, sched) > 0) {
+		if (line[0] == 'T' && !init[0]) { char *q = line + 1; while (*q == ' ') q++; strtol (q, &q, 10); while (*q == ' ') q++; q[strcspn (q, "\n")] = 0; snprintf (init, sizeof init, "%s", q); }
+		else if (line[0] == 'S') push (&pre, line);
+		else if (line[0] == 'E') break;
+	}
+	free (line);
+	if (bound > 3) bound = 3;
+	for (npre = 0; npre <= bound && runs < max_runs && viols < 3; npre++) {
+		/* odometer over (start thread, positions pos[0] < pos[1] < ..., threads thr[]) */
+		for (k = 0; k < npre; k++) { pos[k] = k; thr[k] = 0; }
+		start = 0;
+		for (;;) {
+			char *out = NULL; size_t ol = 0; FILE *of = open_memstream (&out, &ol);
+			int i, cur, usedp = 0; long n = 0; char why[256];
+			rt_reset ();
+			h->setup (init);
+			nt = rt_nthreads ();
+			fprintf (of, "T %ld %s%s%s\n", runs + 1, strstr (init, "cont=1") ? "" : "cont=1 ", (rt_plain_steps && !strstr (init, "plain=1")) ? "plain=1 " : "", init);
+			rp_diverged = 1; rp_in_prefix = 1;
+			for (i = 0; i < pre.n && !rt_first_violation (); i++) {
+				int actor = 0, off = 0, choice; char label[64];
+				if (sscanf (pre.v[i], "S %d %63s %n", &actor, label, &off) < 2) continue;
+				if (actor == 0) { char lb[64]; snprintf (lb, sizeof lb, "%s", label); h->env (lb, ""); fprintf (of, "S 0 %s *\n", label); continue; }
+				if (strlen (label) > 2 && strcmp (label + strlen (label) - 2, "_l") == 0) continue;
+				if (actor - 1 >= rt_nthreads () || !rt_enabled (actor - 1)) break;
+				choice = h->pre (actor, label, "", "", why, sizeof why);
+				rt_grant_choice (actor - 1, choice < 0 ? 0 : choice);
+				if (h->post) h->post (actor, label);
+				fprintf (of, "S %d %s *\n", actor, label);
+			}
+			rp_in_prefix = 0;
+			cur = start % (nt > 0 ? nt : 1);
+			while (!rt_first_violation () && n < max_steps && !(done ? done () : rt_all_done ())) {
+				if (usedp < npre && pos[usedp] == n) { cur = (cur + 1 + thr[usedp]) % nt; usedp++; }       /* a preemption switches to another thread */
+				if (!rt_enabled (cur)) {
+					int j, found = -1;
+					for (j = 1; j <= nt; j++) if (rt_enabled ((cur + j) % nt)) { found = (cur + j) % nt; break; }
+					if (found < 0) {
+						if (rt_timed_waiter_pending ()) { h->env ("Tick", ""); fprintf (of, "S 0 Tick *\n"); n++; continue; }
+						break;
+					}
+					cur = found;
+				}
+				{ int was_delay = rt_pending (cur)->kind == OP_DELAY;
+				  rt_grant (cur);
+				  if (h->post) h->post (cur + 1, "*");
+				  fprintf (of, "S %d * *\n", cur + 1);
+				  n++;
+				  if (was_delay) { int j; for (j = 1; j < nt; j++) if (rt_enabled ((cur + j) % nt)) { cur = (cur + j) % nt; break; } }     /* a spin delay yields */
+				}
+			}
+			if (n > L && n < max_steps) L = n;
+			steps_total += n; runs++;
+			if (!rt_first_violation ()) h->finish (1);
+			fclose (of);
+			if (rt_first_violation ()) {
+				const struct rt_viol *v = rt_first_violation ();
+				char path[512] = "-";
+				viols++;
+				if (viol_dir && rt_should_save (v->oracle)) {
+					FILE *o;
+					snprintf (path, sizeof path, "%s/%s_pb%d_%ld.sched", viol_dir, prop, (int) getpid (), viols);
+					o = fopen (path, "w");
+					if (o) { fputs (out, o); fputs ("E\n", o); fclose (o); }
+				}
+				printf ("VIOL %s|%s|thread %d|step %ld|%s|%s\n", v->oracle, v->fn, v->tid, v->step, path, v->msg);
+			}
+			free (out);
+			if (runs >= max_runs || viols >= 3) break;
+			/* next schedule: threads, then positions, then the starting thread */
+			for (k = npre - 1; k >= 0; k--) { if (++thr[k] < nt - 1) break; thr[k] = 0; }
+			if (k >= 0) continue;
+			for (k = npre - 1; k >= 0; k--) {
+				if (pos[k] + 1 < L - (npre - 1 - k)) { int q; pos[k]++; for (q = k + 1; q < npre; q++) pos[q] = pos[q - 1] + 1; break; }
+			}
+			if (k >= 0) continue;
+			for (k = 0; k < npre; k++) pos[k] = k;
+			if (++start >= nt) break;
+		}
+	}
+	printf ("STATS tours=%ld steps=%ld matched=%ld diverged=0 mismatches=0 violations=%ld nontrivial=%ld\n", runs, steps_total, runs - viols, viols, runs);
 	clear (&pre);
 	return viols;
 }
